@@ -320,6 +320,7 @@ impl<'a> G<'a> {
         for _ in 0..n {
             self.tp();
             match self.u.below(10) {
+                0 if self.u.coin(1, 3) => { self.feat("str-literal-amp-mid-text"); let w = self.pick(WORDS); self.p(w); let a = self.pick(&["&", " &", "&&", "& "]); self.p(a); }
                 0 | 1 => { let w = self.pick(WORDS); self.p(w); self.tp(); }
                 2 => self.p(" "),
                 3 => { self.feat("str-pct-quote"); let q = self.pick(&["%'", "%\"", "%%", "%(", "%)"]); self.p(q); }
